@@ -64,6 +64,10 @@ CHECKS = {
          "Every opt-out-free program built from 23 taint sources, all chains of up to 2 (thorough 3) of 33 carriers and 7 sinks, every registered filter (registry hook) with tainted input or argument, tags printing their arguments, inheritance/Super routes and the scope of the explicit opt-outs is rendered with a marker made of < > & ' \" in every string leaf; no raw fragment of the marker may appear and the count of raw special characters may not exceed that of the same program on a harmless twin value.",
          "Non-interference is checked on the enumerated route compositions only; transformations that hide the marker without emitting raw specials are fine by the property.",
          "DESIGN.md §3 C02"),
+ "C03": ("bounded-exhaustive enumeration of ban targets (every registered tag and filter, registry hook) x syntactic positions x nesting bodies x file-composition routes, and explicit-state enumeration of all API call histories up to depth 4/5 against a ban-set/frozen-flag model",
+         "For each ban target a template using it by every route must be refused (at compile time; lazy includes at execution), harness-registered probe tag/filter counters must stay 0, a banned include/ssi/import/extends must fetch nothing, other sets are unaffected and a control template behaves byte-identically to a fresh set. Every history over BanTag/BanFilter/From*/Render* up to the depth bound is replayed on the real set; each return value and a final vector of six probe verdicts must equal the model's.",
+         "Histories are enumerated without state merging (every path is executed on a fresh real set); the abstract state space has 16 states. Render* shortcuts panic with *Error on a compile error: counted as refusal.",
+         "DESIGN.md §3 C03"),
 }
 
 NOT_YET = {}
